@@ -39,7 +39,7 @@ from . import _an
 PROP = "C14"
 # obligations of the properties this one is downstream of are obligations of this check too (vk.runner.collect_obligations)
 UPSTREAM = ["C05"]
-GEN_REGIONS = ["CoreKernels", "Attrs", "ConfigGlue", "ResultQueries", "KernelHeap", "GlobalState"]
+GEN_REGIONS = ["CoreKernels", "Attrs", "ConfigGlue", "ResultQueries", "KernelHeap", "GlobalState", "ResultPurity"]
 THEOREMS = {
     # the lazy attribute cache PROTOCOL of SpectrumResult.__getattr__ as translated each run (region ResultQueries) is the model lazyGet/lazyRun:
     # access-order independence and "cached values are returned unchanged" are theorems about the translated code
@@ -63,6 +63,9 @@ THEOREMS = {
     # no state outlives a call in the files this property is anchored in (no module/class-level containers, memoisers, mutable defaults) and the
     # decorators are exactly the audited ones (region GlobalState, re-scanned from the current source each run)
     "SpecKitV.Props.GlobalStateGen": ["GlobalStateGen.gen_globalState_core", "GlobalStateGen.gen_globalState_analysis", "GlobalStateGen.gen_globalState_init"],
+    # no method of a result writes in place an array its cache holds (region ResultPurity: buffer effects of every SpectrumResult method, regenerated
+    # each run) — the quantities of this property are read off that cache, in any order, possibly after plot() / get_measurement() / to_dataframe()
+    "SpecKitV.Props.ResultPurityGen": ["gen_result_methods_write_no_cached_array", "gen_result_methods_pure", "gen_session_pure", "cRun_clean_of_clean"],
 }
 CONTRACTS = [
     "Numba's prange executes every iteration of the loop body at least once, each as the sequential body with its own private scalars "
